@@ -48,6 +48,14 @@ def main():
                     hplan.append(dict(fam=fam, impl=impl, kind=kind, emb='ext' if len(hplan) % 3 == 0 else 'mid', leaf=lf, internal=it, nkeys=nk,
                                       ntraces=3 if quick else 30, length=80 if quick else 300,
                                       seed=ck.seed * 1000 + len(hplan), structure=True))
+    # node sizes set on a subclass before first use
+    for fam in (['OO', 'II'] if quick else fams):
+        for impl in ('c', 'py'):
+            for kind in ('BTree', 'TreeSet'):
+                for (lf, it) in ((2, 2), (3, 4)):
+                    hplan.append(dict(fam=fam, impl=impl, kind=kind, emb='mid', leaf=lf, internal=it, nkeys=16, subclass=True,
+                                      ntraces=3 if quick else 20, length=80 if quick else 300,
+                                      seed=ck.seed * 1000 + 500 + len(hplan), structure=True))
     tracecheck.run_histories(ck, hplan)
     ck.assumptions += ['node sizes >= 2, set on the classes before first use',
                        'model keys embedded order-preservingly (harness/embed.py)']
